@@ -83,6 +83,77 @@ type FilterOpts struct {
 	ExcludeNames   []string `json:"exclude_names"`
 	IncludeSources []string `json:"include_sources"`
 	ExcludeSources []string `json:"exclude_sources"`
+	Profiles       []string `json:"profiles,omitempty"` // harness profiles added with FilterOptions.AddProfile, in order, after IncludeNames
+}
+
+// Harness profiles, registered through lint.RegisterProfile at start-up: the documented effect
+// of AddProfile is to append the profile's lint names to IncludeNames. The lists get spare
+// capacity on purpose (an implementation that appends *to the profile's slice* would show).
+var harnessProfiles = map[string][]string{}
+
+func registerHarnessProfiles() {
+	g := lint.GlobalRegistry()
+	certs := g.CertificateLints().Names()
+	crls := g.RevocationListLints().Names()
+	ocsps := g.OcspResponseLints().Names()
+	var real []string
+	for _, n := range certs {
+		if !isProbeName(n) {
+			real = append(real, n)
+		}
+	}
+	pickEvery := func(xs []string, step, off int) []string {
+		out := make([]string, 0, 64)
+		for i := off; i < len(xs); i += step {
+			out = append(out, xs[i])
+		}
+		return out
+	}
+	defs := map[string][]string{
+		"zsim_profile_sparse": pickEvery(real, 41, 3),
+		"zsim_profile_dense":  pickEvery(real, 7, 1),
+		"zsim_profile_mixed":  append(append(pickEvery(real, 97, 5), firstN(crls, 2)...), firstN(ocsps, 1)...),
+		"zsim_profile_dupes":  append(pickEvery(real, 120, 9), pickEvery(real, 120, 9)...),
+	}
+	for name, names := range defs {
+		if len(names) == 0 {
+			continue
+		}
+		own := make([]string, len(names), len(names)+32)
+		copy(own, names)
+		harnessProfiles[name] = append([]string(nil), names...)
+		lint.RegisterProfile(lint.Profile{Name: name, Description: "zsim harness profile", Citation: "zsim", Source: lint.Community, LintNames: own})
+	}
+}
+
+func firstN(xs []string, n int) []string {
+	if len(xs) < n {
+		n = len(xs)
+	}
+	return append([]string(nil), xs[:n]...)
+}
+
+// includeNamesEff is IncludeNames as Filter sees it: the list given plus the names of the added profiles.
+func (o *FilterOpts) includeNamesEff() []string {
+	if len(o.Profiles) == 0 {
+		return o.IncludeNames
+	}
+	out := append([]string(nil), o.IncludeNames...)
+	for _, p := range o.Profiles {
+		out = append(out, harnessProfiles[p]...)
+	}
+	return out
+}
+
+// profilesIntact reports the first registered harness profile whose name list is no longer what was registered.
+func profilesIntact() (string, bool) {
+	for _, name := range sortedKeys(harnessProfiles) {
+		p, ok := lint.GetProfile(name)
+		if !ok || !sameStrings(p.LintNames, harnessProfiles[name]) {
+			return name, false
+		}
+	}
+	return "", true
 }
 
 func (o *FilterOpts) real() (lint.FilterOptions, error) {
@@ -95,6 +166,10 @@ func (o *FilterOpts) real() (lint.FilterOptions, error) {
 		f.NameFilter = re
 	}
 	f.IncludeNames = o.IncludeNames
+	if len(o.IncludeNames) > 0 && len(o.Profiles) > 0 {
+		// the caller's own list, with room to grow: AddProfile appends to it
+		f.IncludeNames = append(make([]string, 0, len(o.IncludeNames)+4), o.IncludeNames...)
+	}
 	f.ExcludeNames = o.ExcludeNames
 	if o.IncludeSources != nil {
 		f.IncludeSources = lint.SourceList{}
@@ -108,11 +183,18 @@ func (o *FilterOpts) real() (lint.FilterOptions, error) {
 			f.ExcludeSources = append(f.ExcludeSources, lint.LintSource(s))
 		}
 	}
+	for _, name := range o.Profiles {
+		p, ok := lint.GetProfile(name)
+		if !ok {
+			return f, fmt.Errorf("harness profile %q is not registered", name)
+		}
+		f.AddProfile(p)
+	}
 	return f, nil
 }
 
 func (o *FilterOpts) empty() bool {
-	return o.NameFilter == nil && len(o.IncludeNames) == 0 && len(o.ExcludeNames) == 0 &&
+	return o.NameFilter == nil && len(o.includeNamesEff()) == 0 && len(o.ExcludeNames) == 0 &&
 		len(o.IncludeSources) == 0 && len(o.ExcludeSources) == 0
 }
 
@@ -173,11 +255,12 @@ func modelFilter(t *MetaTable, parent *ModelReg, o *FilterOpts) filterVerdict {
 	if exN == nil && len(o.ExcludeNames) > 0 {
 		return filterVerdict{Err: true, Why: fmt.Sprintf("unknown excluded name %q", bad)}
 	}
-	inN, bad := trimAll(o.IncludeNames)
-	if inN == nil && len(o.IncludeNames) > 0 {
+	incl := o.includeNamesEff()
+	inN, bad := trimAll(incl)
+	if inN == nil && len(incl) > 0 {
 		return filterVerdict{Err: true, Why: fmt.Sprintf("unknown included name %q", bad)}
 	}
-	if o.NameFilter != nil && (len(o.ExcludeNames) > 0 || len(o.IncludeNames) > 0) {
+	if o.NameFilter != nil && (len(o.ExcludeNames) > 0 || len(incl) > 0) {
 		return filterVerdict{Err: true, Why: "name pattern combined with name lists"}
 	}
 	var re *regexp.Regexp
@@ -207,7 +290,7 @@ func modelFilter(t *MetaTable, parent *ModelReg, o *FilterOpts) filterVerdict {
 		if exN[n] {
 			continue
 		}
-		if len(o.IncludeNames) > 0 && !inN[n] {
+		if len(incl) > 0 && !inN[n] {
 			continue
 		}
 		sel[n] = true
